@@ -3449,6 +3449,38 @@ impl ContinuityStore {
         Ok(id)
     }
 
+    /// Verification export: append a provider-cursor-updated frame as a completed run would.
+    #[cfg(feature = "verif")]
+    #[allow(clippy::too_many_arguments)]
+    pub fn verif_append_provider_cursor_updated(
+        &self,
+        continuity_id: &str,
+        provider: String,
+        endpoint: Option<String>,
+        model: Option<String>,
+        cursor: Option<serde_json::Value>,
+        action: String,
+        reason: Option<String>,
+        run_session_id: Option<String>,
+        actor_id: String,
+        origin: String,
+    ) -> Result<String, String> {
+        self.append_provider_cursor_updated(
+            continuity_id,
+            ProviderCursorUpdatedPayload {
+                provider,
+                endpoint,
+                model,
+                cursor,
+                action,
+                reason,
+                run_session_id,
+                actor_id,
+                origin,
+            },
+        )
+    }
+
     fn load_next_seq_for(&self, continuity_id: &str) -> Result<u64, io::Error> {
         if let Ok(Some(last_seq)) = self.stream_cache.try_read_last_seq(continuity_id) {
             return Ok(last_seq.saturating_add(1));
@@ -3655,7 +3687,11 @@ fn save_index(path: &Path, index: &ContinuityIndexV1) -> io::Result<()> {
         .map_err(|err| io::Error::new(io::ErrorKind::InvalidData, err))?;
     let tmp = path.with_extension("json.tmp");
     fs::write(&tmp, payload)?;
+    #[cfg(feature = "verif")]
+    rip_kernel::verif::point("index.tmp", "");
     fs::rename(tmp, path)?;
+    #[cfg(feature = "verif")]
+    rip_kernel::verif::point("index.renamed", "");
     Ok(())
 }
 
